@@ -85,9 +85,23 @@ def _replay(task):
             elif op == "set_angles_none":
                 t.unitcell_angles = None
             elif op == "set_lengths":
-                t.unitcell_lengths = np.array([[x / 6.0 for x in ln] for ln in arg[0]])
+                new = np.array([[x / 6.0 for x in ln] for ln in arg[0]])
+                cur = t.unitcell_lengths
+                if cur is not None and cur.shape == new.shape and variant % 4 == 1:
+                    cur[:] = new; t.unitcell_lengths = cur          # the SAME array object, mutated and assigned back (t.unitcell_lengths *= s)
+                elif cur is not None and cur.shape == new.shape and variant % 4 == 2:
+                    t.unitcell_lengths[...] = new                   # edited in place through the getter
+                else:
+                    t.unitcell_lengths = new
             elif op == "set_angles":
-                t.unitcell_angles = np.degrees(np.arccos(np.array([[x / 6.0 for x in cs] for cs in arg[0]])))
+                new = np.degrees(np.arccos(np.array([[x / 6.0 for x in cs] for cs in arg[0]])))
+                cur = t.unitcell_angles
+                if cur is not None and cur.shape == new.shape and variant % 4 == 1:
+                    cur[:] = new; t.unitcell_angles = cur
+                elif cur is not None and cur.shape == new.shape and variant % 4 == 2:
+                    t.unitcell_angles[...] = new
+                else:
+                    t.unitcell_angles = new
             elif op == "index":
                 idx0 = [i - 1 for i in arg]
                 if len(idx0) == 1:
